@@ -235,7 +235,12 @@ type mutBind struct {
 	mut  int               // position of the mutated argument
 	tmpl string            // for a mutated *etree.Element: template over the dereferenced element, yields res node
 	into map[string]string // for xmlUnmarshalElement: type of the target struct -> function (el, current value) -> option (res T)
+	upd  map[string]string // general form, see below
 }
+
+// mutBind.upd (general form, also for methods: key "M:<receiver type>.<method>", mut = -1): pointee type of the mutated
+// argument -> template over (the other arguments in order, the pointee's current value) yielding
+// option (new pointee value * option err); None = an outcome the model does not cover (translated as a panic)
 
 var mutBinds = map[string]mutBind{
 	"sp.decryptAssertions": {mut: 0, tmpl: "(decrypt_call decrypt_all %s)"},
@@ -277,6 +282,13 @@ type externBind struct{ param, coq, kind string }
 var externCalls = map[string]externBind{
 	"ValidateEncodedResponse": {param: "validated", coq: "res (option response)", kind: "*types.Response"},
 }
+
+// constants of other packages (key "pkg.Name"): untyped integer constants
+var pkgConstBinds = map[string]string{}
+
+// opaque handle types whose values are consumed by use (io.Reader): a local of such a type must be used exactly once,
+// outside loops and function literals
+var linearTypes = map[string]bool{}
 
 // zero values of the records the translated code constructs
 var zeroBinds = map[string]string{
@@ -430,6 +442,12 @@ type xlat struct {
 	loopDepth   int    // > 0 while the body of a loop is translated
 	elided      string // element type of the slice literal whose untyped element literal is being translated
 	allowObj    *ast.Ident // the occurrence of an object-typed local that is being used as a receiver (see objTypes)
+	fmtVerbs    bool   // the unit models the text of fmt.Errorf: a format whose only verbs are %d over integer arguments
+	world       *varInfo          // function with function-typed parameters: the state those functions act on (threaded like bt)
+	retWorld    []*varInfo        // variables whose values every return hands back beside the results (world / captured state)
+	fnParams    map[string][]string // translated package-level functions: Go types of their parameters
+	curBody     *ast.BlockStmt    // body of the function being translated
+	curPtypes   []string          // Go types of its parameters
 }
 
 // cret: the translation of `return` with result term [t]
@@ -748,13 +766,21 @@ func (x *xlat) analyse(body *ast.BlockStmt) {
 				}
 			}
 		case *ast.CallExpr:
-			if mb, ok := mutBinds[exprString(s.Fun)]; ok && mb.mut < len(s.Args) {
+			if mb, ok := mutBinds[exprString(s.Fun)]; ok && mb.mut >= 0 && mb.mut < len(s.Args) {
 				mark(s.Args[mb.mut], false)
 			}
 			// a method that updates the object its receiver (a local variable) denotes; a writer created over a local sink
 			if sel, ok := s.Fun.(*ast.SelectorExpr); ok && recvMutNames[sel.Sel.Name] {
 				if id, ok := sel.X.(*ast.Ident); ok {
 					mark(id, false)
+				}
+			}
+			// a method bound as mutating its receiver (the receiver's type is not known yet: every receiver of that name)
+			if sel, ok := s.Fun.(*ast.SelectorExpr); ok {
+				for k, mb := range mutBinds {
+					if mb.mut == -1 && strings.HasPrefix(k, "M:") && strings.HasSuffix(k, "."+sel.Sel.Name) {
+						mark(sel.X, false)
+					}
 				}
 			}
 			if i, ok := sinkCtors[exprString(s.Fun)]; ok && i < len(s.Args) {
@@ -774,6 +800,7 @@ type ex struct {
 	term   string
 	typ    string
 	valPtr bool
+	konst  bool // untyped integer constant (assignable to / comparable with int64)
 }
 
 func (x *xlat) constIdent(name string) (ex, bool) {
@@ -781,7 +808,7 @@ func (x *xlat) constIdent(name string) (ex, bool) {
 		if v.isStr {
 			return ex{term: x.constPrefix + name, typ: "string"}, true
 		}
-		return ex{term: fmt.Sprintf("(%d)%%Z", v.z), typ: "int"}, true
+		return ex{term: fmt.Sprintf("(%d)%%Z", v.z), typ: "int", konst: true}, true
 	}
 	return ex{}, false
 }
@@ -803,7 +830,7 @@ func (x *xlat) expr(e ast.Expr) ex {
 			if err != nil {
 				unsup(n, "int literal")
 			}
-			return ex{term: fmt.Sprintf("(%d)%%Z", z), typ: "int"}
+			return ex{term: fmt.Sprintf("(%d)%%Z", z), typ: "int", konst: true}
 		case token.CHAR:
 			// a character constant that fits a byte (the only use the subset has for it)
 			r, _, tail, err := strconv.UnquoteChar(n.Value[1:len(n.Value)-1], '\'')
@@ -851,6 +878,9 @@ func (x *xlat) expr(e ast.Expr) ex {
 			}
 			if c, ok := qualConsts[id.Name+"."+n.Sel.Name]; ok {
 				return c
+			}
+			if v, ok := pkgConstBinds[id.Name+"."+n.Sel.Name]; ok {
+				return ex{term: v, typ: "int", konst: true}
 			}
 			unsup(n, "qualified identifier %s.%s", id.Name, n.Sel.Name)
 		}
@@ -981,6 +1011,21 @@ func (x *xlat) expr(e ast.Expr) ex {
 	return ex{}
 }
 
+// numKind: the common type of two integer operands ("int" | "int64"), "" if there is none; an untyped constant takes the
+// type of the other operand.  int is modelled as unbounded Z (lengths and small counters only); int64 arithmetic wraps.
+func numKind(a, b ex) string {
+	isNum := func(t string) bool { return t == "int" || t == "int64" }
+	switch {
+	case !isNum(a.typ) || !isNum(b.typ):
+		return ""
+	case a.typ == b.typ:
+		return a.typ
+	case (a.typ == "int64" && b.konst) || (b.typ == "int64" && a.konst):
+		return "int64"
+	}
+	return ""
+}
+
 func (x *xlat) binary(n *ast.BinaryExpr) ex {
 	a := x.expr(n.X)
 	b := x.expr(n.Y)
@@ -1063,7 +1108,7 @@ func (x *xlat) binary(n *ast.BinaryExpr) ex {
 			}
 		case a.typ == "string" && b.typ == "string":
 			t = "(" + a.term + " =?s " + b.term + ")"
-		case a.typ == "int" && b.typ == "int":
+		case numKind(a, b) != "":
 			t = "(" + a.term + " =? " + b.term + ")%Z"
 		case wraps64(a.typ) || wraps64(b.typ):
 			if _, ok := arith64(n, a, b); !ok {
@@ -1080,7 +1125,7 @@ func (x *xlat) binary(n *ast.BinaryExpr) ex {
 		}
 		return ex{pres: pres, term: t, typ: "bool"}
 	case token.LSS, token.LEQ, token.GTR, token.GEQ:
-		if _, ok64 := arith64(n, a, b); !ok64 && (a.typ != "int" || b.typ != "int") {
+		if _, ok64 := arith64(n, a, b); !ok64 && numKind(a, b) == "" {
 			unsup(n, "ordering on %s, %s", a.typ, b.typ)
 		}
 		op := map[token.Token]string{token.LSS: "<?", token.LEQ: "<=?", token.GTR: ">?", token.GEQ: ">=?"}[n.Op]
@@ -1093,17 +1138,24 @@ func (x *xlat) binary(n *ast.BinaryExpr) ex {
 		if a.typ == "string" && b.typ == "string" {
 			return ex{pres: pres, term: "(" + a.term + " ++ " + b.term + ")%string", typ: "string"}
 		}
+		if numKind(a, b) == "int64" {
+			return ex{pres: pres, term: "(i64_add " + a.term + " " + b.term + ")", typ: "int64"}
+		}
 		if a.typ == "int" && b.typ == "int" {
-			return ex{pres: pres, term: "(" + a.term + " + " + b.term + ")%Z", typ: "int"}
+			return ex{pres: pres, term: "(" + a.term + " + " + b.term + ")%Z", typ: "int", konst: a.konst && b.konst}
 		}
 	case token.SUB, token.MUL:
 		if t, ok := arith64(n, a, b); ok {
 			fn := map[token.Token]string{token.SUB: "i64_sub", token.MUL: "i64_mul"}[n.Op]
 			return ex{pres: append(append([]pre{}, a.pres...), b.pres...), term: "(" + fn + " " + a.term + " " + b.term + ")", typ: t}
 		}
+		if numKind(a, b) == "int64" {
+			fn := map[token.Token]string{token.SUB: "i64_sub", token.MUL: "i64_mul"}[n.Op]
+			return ex{pres: append(append([]pre{}, a.pres...), b.pres...), term: "(" + fn + " " + a.term + " " + b.term + ")", typ: "int64"}
+		}
 		if a.typ == "int" && b.typ == "int" {
 			op := map[token.Token]string{token.SUB: "-", token.MUL: "*"}[n.Op]
-			return ex{pres: append(append([]pre{}, a.pres...), b.pres...), term: "(" + a.term + " " + op + " " + b.term + ")%Z", typ: "int"}
+			return ex{pres: append(append([]pre{}, a.pres...), b.pres...), term: "(" + a.term + " " + op + " " + b.term + ")%Z", typ: "int", konst: a.konst && b.konst}
 		}
 	case token.REM:
 		// Go's % truncates towards zero (Z.rem); a zero divisor panics
@@ -1326,6 +1378,16 @@ func (x *xlat) call(n *ast.CallExpr) ex {
 				return a
 			}
 			unsup(n, "conversion of %s to int", a.typ)
+		case "int64":
+			// int64(e) for e of type int (lengths: never beyond the int64 range) or int64: the same number
+			if len(n.Args) != 1 {
+				unsup(n, "conversion form")
+			}
+			a := x.expr(n.Args[0])
+			if a.typ != "int" && a.typ != "int64" {
+				unsup(n, "conversion of %s to int64", a.typ)
+			}
+			return ex{pres: a.pres, term: a.term, typ: "int64"}
 		case "string":
 			a := x.expr(n.Args[0])
 			if a.typ != "string" {
@@ -1535,6 +1597,25 @@ func (x *xlat) externCall(n *ast.CallExpr) (ex, bool) {
 		}
 		f, _ := strconv.Unquote(lit.Value)
 		var pres []pre
+		if x.fmtVerbs {
+			// the text is modelled: the only verbs are %d, one per argument, every argument an integer
+			var args []string
+			for _, a := range n.Args[1:] {
+				v := x.expr(a)
+				if v.typ != "int" && v.typ != "int64" {
+					unsup(n, "fmt.Errorf argument of type %s", v.typ)
+				}
+				pres = append(pres, v.pres...)
+				args = append(args, v.term)
+			}
+			if strings.Count(f, "%") != len(args) || strings.Count(f, "%d") != len(args) {
+				unsup(n, "fmt.Errorf format %q", f)
+			}
+			if len(args) == 0 {
+				return ex{pres: pres, term: "(Some (EOther " + coqStr(f) + "))", typ: "error"}, true
+			}
+			return ex{pres: pres, term: "(Some (EOther (sprintf_d " + coqStr(f) + " [" + strings.Join(args, "; ") + "])))", typ: "error"}, true
+		}
 		for _, a := range n.Args[1:] {
 			pres = append(pres, x.expr(a).pres...)
 		}
@@ -1686,6 +1767,19 @@ func (x *xlat) block(list []ast.Stmt, cur, out, loop []*varInfo, inLoop bool) st
 	case *ast.EmptyStmt:
 		return cont(cur)
 	case *ast.ReturnStmt:
+		// return f(..) where the call has an effect on a variable (a call of a function-typed parameter, of a function taking
+		// function literals, of a function mutating its argument):  tmp := f(..); return tmp
+		if len(n.Results) == 1 && len(x.results) == 1 && x.results[0] == "error" {
+			if call, ok := n.Results[0].(*ast.CallExpr); ok && x.effectfulCall(call) {
+				id := &ast.Ident{Name: "ret", NamePos: n.Pos(), Obj: ast.NewObj(ast.Var, "ret")}
+				return x.block([]ast.Stmt{
+					&ast.AssignStmt{Lhs: []ast.Expr{id}, TokPos: n.Pos(), Tok: token.DEFINE, Rhs: []ast.Expr{call}},
+					&ast.ReturnStmt{Return: n.Return, Results: []ast.Expr{id}}}, cur, out, loop, inLoop)
+			}
+		}
+		if x.retWorld != nil && x.clos == nil {
+			return "ret_with " + tupleOf(x.retWorld) + " (" + x.ret(n) + ")"
+		}
 		return x.ret(n)
 	case *ast.BranchStmt:
 		if n.Label != nil || !inLoop {
@@ -1723,13 +1817,17 @@ func (x *xlat) block(list []ast.Stmt, cur, out, loop []*varInfo, inLoop bool) st
 		return wrapPres(v.pres, fmt.Sprintf("let %s := %s in %s", vi.coq, v.term, cont(x.mutVars(cur, vs.Names[0], vi))), "CPanic")
 	case *ast.IncDecStmt:
 		id, ok := n.X.(*ast.Ident)
-		if !ok || id.Obj == nil || x.locals[id.Obj] == nil || x.locals[id.Obj].typ != "int" {
+		if !ok || id.Obj == nil || x.locals[id.Obj] == nil || (x.locals[id.Obj].typ != "int" && x.locals[id.Obj].typ != "int64") {
 			unsup(n, "inc/dec")
 		}
 		vi := x.locals[id.Obj]
 		op := "+"
 		if n.Tok == token.DEC {
 			op = "-"
+		}
+		if vi.typ == "int64" {
+			fn := map[string]string{"+": "i64_add", "-": "i64_sub"}[op]
+			return fmt.Sprintf("let %s := (%s %s 1%%Z) in %s", vi.coq, fn, vi.coq, cont(cur))
 		}
 		return fmt.Sprintf("let %s := (%s %s 1)%%Z in %s", vi.coq, vi.coq, op, cont(cur))
 	case *ast.AssignStmt:
@@ -2041,7 +2139,7 @@ func zeroOf(n ast.Node, t string) string {
 		return `""`
 	case t == "bool":
 		return "false"
-	case t == "int":
+	case t == "int" || t == "int64":
 		return "0%Z"
 	case t == "error" || isPtr(t):
 		return "None"
@@ -2160,8 +2258,17 @@ func (x *xlat) assign(n *ast.AssignStmt, cur []*varInfo, cont func([]*varInfo) s
 	// err = f(.., X, ..) where f mutates the struct / element X points to
 	if len(n.Lhs) == 1 && len(n.Rhs) == 1 {
 		if call, ok := n.Rhs[0].(*ast.CallExpr); ok {
-			if mb, ok := mutBinds[exprString(call.Fun)]; ok {
+			if mb, ok := x.mutBindOf(call); ok {
 				return x.mutCall(n, call, mb, cur, cont, bindIdent)
+			}
+			// err = p(args) for a function-typed parameter p / err = f(args, func literal) for a translated function
+			if id, ok := call.Fun.(*ast.Ident); ok {
+				if id.Obj != nil && x.locals[id.Obj] != nil && strings.HasPrefix(x.locals[id.Obj].typ, "func(") {
+					return x.funcParamCall(n, call, x.locals[id.Obj], cur, cont, bindIdent)
+				}
+				if ps, ok := x.fnParams[id.Name]; ok && (id.Obj == nil || x.locals[id.Obj] == nil) && x.done[id.Name] != "" {
+					return x.closureCall(n, call, id.Name, ps, cur, cont, bindIdent)
+				}
 			}
 		}
 	}
@@ -2290,6 +2397,13 @@ func (x *xlat) assign(n *ast.AssignStmt, cur []*varInfo, cont func([]*varInfo) s
 			return wrapPres(arg.pres, fmt.Sprintf("let '(%s, %s) := time_Parse_RFC3339 %s in %s", va.coq, vb.coq, arg.term, cont(c2)), "CPanic")
 		}
 		r := x.expr(call)
+		if strings.HasPrefix(r.typ, "pair:") {
+			// (T, error) where the value beside a non-nil error is meaningful (io.ReadAll: the bytes read so far)
+			vt := strings.TrimSuffix(strings.TrimPrefix(r.typ, "pair:"), ",error")
+			va, c1 := bindIdent(a, vt, false, cur)
+			vb, c2 := bindIdent(b, "error", false, c1)
+			return wrapPres(r.pres, fmt.Sprintf("let %s := (fst %s) in let %s := (snd %s) in %s", va.coq, r.term, vb.coq, r.term, cont(c2)), "CPanic")
+		}
 		if !strings.HasPrefix(r.typ, "res:") {
 			unsup(n, "tuple assignment from %s", exprString(call.Fun))
 		}
@@ -2351,8 +2465,14 @@ func (x *xlat) assign(n *ast.AssignStmt, cur []*varInfo, cont func([]*varInfo) s
 			if vi.valPtr {
 				unsup(n, "re-assignment of %s", l.Name)
 			}
+			if linearTypes[vi.typ] || linearTypes[v.typ] {
+				unsup(n, "re-assignment of the handle %s", l.Name)
+			}
 			term := x.coerce(n, v, vi.typ)
 			return wrapPres(v.pres, fmt.Sprintf("let %s := %s in %s", vi.coq, term, cont(c)), "CPanic")
+		}
+		if linearTypes[v.typ] {
+			x.checkLinear(l)
 		}
 		vi, c = bindIdent(l, v.typ, v.valPtr, cur)
 		term := v.term
@@ -2426,12 +2546,51 @@ func (x *xlat) mutCall(n *ast.AssignStmt, call *ast.CallExpr, mb mutBind, cur []
 	if !ok || mb.mut >= len(call.Args) {
 		unsup(n, "%s: form", exprString(call.Fun))
 	}
-	tid, ok := call.Args[mb.mut].(*ast.Ident)
+	var target ast.Expr
+	if mb.mut < 0 {
+		target = call.Fun.(*ast.SelectorExpr).X // a method mutating its receiver (mutBindOf checked the form)
+	} else {
+		target = call.Args[mb.mut]
+	}
+	tid, ok := target.(*ast.Ident)
 	if !ok || tid.Obj == nil || x.locals[tid.Obj] == nil {
 		unsup(n, "%s: the mutated argument must be a local variable", exprString(call.Fun))
 	}
 	tv := x.locals[tid.Obj]
 	r := x.freshName("r")
+	if mb.upd != nil {
+		tmpl, ok := mb.upd[strings.TrimPrefix(tv.typ, "*")]
+		if !ok || !strings.HasPrefix(tv.typ, "*") {
+			unsup(n, "%s: target of type %s", exprString(call.Fun), tv.typ)
+		}
+		var pres []pre
+		var parts []interface{}
+		for i, a := range call.Args {
+			if i == mb.mut {
+				continue
+			}
+			v := x.expr(a)
+			pres = append(pres, v.pres...)
+			parts = append(parts, v.term)
+		}
+		cur0 := tv.coq
+		if !tv.valPtr {
+			p := x.freshName("p")
+			pres = append(pres, pre{"opt", p, tv.coq})
+			cur0 = p
+		}
+		parts = append(parts, cur0)
+		if strings.Count(tmpl, "%s") != len(parts) {
+			unsup(n, "%s: %d arguments", exprString(call.Fun), len(call.Args))
+		}
+		pres = append(pres, pre{"opt", r, fmt.Sprintf(tmpl, parts...)})
+		nv := "(fst " + r + ")"
+		if !tv.valPtr {
+			nv = "(Some (fst " + r + "))"
+		}
+		ev, c := bindIdent(errID, "error", false, cur)
+		return wrapPres(pres, fmt.Sprintf("let %s := %s in let %s := (snd %s) in %s", tv.coq, nv, ev.coq, r, cont(c)), "CPanic")
+	}
 	if mb.into != nil {
 		// xmlUnmarshalElement(el, X): X is a pointer to a struct created in this function, represented by its value
 		if len(call.Args) != 2 || !tv.valPtr {
@@ -2466,6 +2625,239 @@ func (x *xlat) mutCall(n *ast.AssignStmt, call *ast.CallExpr, mb mutBind, cur []
 	ev, c := bindIdent(errID, "error", false, cur)
 	return wrapPres(pres, fmt.Sprintf("let %s := %s in let %s := match %s with Ok v => Some v | Err _ => %s end in let %s := (err_of_res %s) in %s",
 		r, fmt.Sprintf(mb.tmpl, p), tv.coq, r, tv.coq, ev.coq, r, cont(c)), "CPanic")
+}
+
+// mutBindOf: the binding of a call that mutates what one of its arguments (or its receiver) points to
+func (x *xlat) mutBindOf(call *ast.CallExpr) (mutBind, bool) {
+	if mb, ok := mutBinds[exprString(call.Fun)]; ok {
+		if mb.upd != nil {
+			// a function of another package: the qualifier must be the package, not a local variable of that name
+			sel, ok := call.Fun.(*ast.SelectorExpr)
+			if !ok {
+				return mutBind{}, false
+			}
+			if id, ok := sel.X.(*ast.Ident); !ok || id.Obj != nil {
+				return mutBind{}, false
+			}
+		}
+		return mb, true
+	}
+	if sel, ok := call.Fun.(*ast.SelectorExpr); ok {
+		if id, ok := sel.X.(*ast.Ident); ok && id.Obj != nil && x.locals[id.Obj] != nil {
+			if mb, ok := mutBinds["M:"+x.locals[id.Obj].typ+"."+sel.Sel.Name]; ok && mb.mut == -1 && mb.upd != nil {
+				return mb, true
+			}
+		}
+	}
+	return mutBind{}, false
+}
+
+// effectfulCall: calls that can only be translated as statements  v (:)= f(..)  because they update variables
+func (x *xlat) effectfulCall(call *ast.CallExpr) bool {
+	if _, ok := x.mutBindOf(call); ok {
+		return true
+	}
+	if id, ok := call.Fun.(*ast.Ident); ok {
+		if id.Obj != nil && x.locals[id.Obj] != nil {
+			return strings.HasPrefix(x.locals[id.Obj].typ, "func(")
+		}
+		_, ok := x.fnParams[id.Name]
+		return ok
+	}
+	return false
+}
+
+// goTypeStr: typeStr extended to function types:  func(T1,T2) R
+func goTypeStr(e ast.Expr) string {
+	ft, ok := e.(*ast.FuncType)
+	if !ok {
+		return typeStr(e)
+	}
+	var ps, rs []string
+	for _, f := range ft.Params.List {
+		k := len(f.Names)
+		if k == 0 {
+			k = 1
+		}
+		for i := 0; i < k; i++ {
+			ps = append(ps, goTypeStr(f.Type))
+		}
+	}
+	if ft.Results != nil {
+		for _, f := range ft.Results.List {
+			k := len(f.Names)
+			if k == 0 {
+				k = 1
+			}
+			for i := 0; i < k; i++ {
+				rs = append(rs, goTypeStr(f.Type))
+			}
+		}
+	}
+	return "func(" + strings.Join(ps, ",") + ") " + strings.Join(rs, ",")
+}
+
+// funcTypeParams: the parameter types of  func(T1,..,Tn) error  (the only function types in the subset)
+func funcTypeParams(n ast.Node, t string) []string {
+	if !strings.HasPrefix(t, "func(") || !strings.HasSuffix(t, ") error") {
+		unsup(n, "function type %s", t)
+	}
+	in := strings.TrimSuffix(strings.TrimPrefix(t, "func("), ") error")
+	if in == "" {
+		return nil
+	}
+	ps := strings.Split(in, ",")
+	for _, p := range ps {
+		if strings.Contains(p, "func(") {
+			unsup(n, "function type %s", t)
+		}
+	}
+	return ps
+}
+
+// funcParamCall: err (:)= p(args) where p is a function-typed parameter.  Such a function is a Go closure: it may update
+// variables of its creator.  It is modelled as a state transformer over an abstract state [w : W] (the function being
+// translated is polymorphic in W), which is threaded through the body and handed back with the results.
+func (x *xlat) funcParamCall(n *ast.AssignStmt, call *ast.CallExpr, fv *varInfo, cur []*varInfo, cont func([]*varInfo) string,
+	bindIdent func(*ast.Ident, string, bool, []*varInfo) (*varInfo, []*varInfo)) string {
+	errID, ok := n.Lhs[0].(*ast.Ident)
+	pts := funcTypeParams(n, fv.typ)
+	if !ok || x.world == nil || len(call.Args) != len(pts) || call.Ellipsis != token.NoPos {
+		unsup(n, "call of the function value %s: form", exprString(call.Fun))
+	}
+	var pres []pre
+	args := []string{fv.coq}
+	for i, a := range call.Args {
+		v := x.expr(a)
+		if v.typ != pts[i] {
+			unsup(n, "argument %d of %s has type %s, not %s", i, exprString(call.Fun), v.typ, pts[i])
+		}
+		pres = append(pres, v.pres...)
+		args = append(args, v.term)
+	}
+	args = append(args, x.world.coq)
+	r := x.freshName("r")
+	ev, c := bindIdent(errID, "error", false, cur)
+	return wrapPres(pres, fmt.Sprintf("match (%s) with PPanic => CPanic | PVal %s => let %s := (snd %s) in let %s := (err_of_res (fst %s)) in %s end",
+		strings.Join(args, " "), r, x.world.coq, r, ev.coq, r, cont(c)), "CPanic")
+}
+
+// closureCall: err (:)= f(a1, .., func(..) error { BODY }, ..) for a translated package-level function f with function-typed
+// parameters.  The literals are translated here, where they are created: BODY sees the current values of the variables it
+// captures; the mutable variables in scope ([cur]) are the state the closure acts on (f's W), and their values after the call
+// are what f hands back.
+func (x *xlat) closureCall(n *ast.AssignStmt, call *ast.CallExpr, name string, ptypes []string, cur []*varInfo, cont func([]*varInfo) string,
+	bindIdent func(*ast.Ident, string, bool, []*varInfo) (*varInfo, []*varInfo)) string {
+	errID, ok := n.Lhs[0].(*ast.Ident)
+	if !ok || len(call.Args) != len(ptypes) || call.Ellipsis != token.NoPos || x.done[name] != "error" {
+		unsup(n, "call of %s: form", name)
+	}
+	if x.world != nil || x.clos != nil || x.retWorld != nil || x.bt != nil {
+		unsup(n, "call of %s inside a function literal / a function with function-typed parameters", name)
+	}
+	for _, v := range cur {
+		if _, ok := coqOfVar(v); !ok {
+			unsup(n, "call of %s: captured variable of type %s", name, v.typ)
+		}
+	}
+	var pres []pre
+	args := []string{"(G_" + name, "_"}
+	nfun := 0
+	for i, a := range call.Args {
+		if strings.HasPrefix(ptypes[i], "func(") {
+			fl, ok := a.(*ast.FuncLit)
+			if !ok {
+				unsup(n, "argument %d of %s must be a function literal", i, name)
+			}
+			args = append(args, x.closureArg(fl, ptypes[i], cur))
+			nfun++
+			continue
+		}
+		v := x.expr(a)
+		if v.typ != ptypes[i] && !(ptypes[i] == "int64" && v.konst) {
+			unsup(n, "argument %d of %s has type %s, not %s", i, name, v.typ, ptypes[i])
+		}
+		if v.valPtr {
+			unsup(n, "argument %d of %s", i, name)
+		}
+		pres = append(pres, v.pres...)
+		args = append(args, v.term)
+	}
+	if nfun == 0 {
+		unsup(n, "call of %s", name)
+	}
+	r := x.freshName("r")
+	ev, c := bindIdent(errID, "error", false, cur)
+	return wrapPres(pres, fmt.Sprintf("match %s %s) with PPanic => CPanic | PVal %s => let %s := (snd %s) in let %s := (err_of_res (fst %s)) in %s end",
+		strings.Join(args, " "), tupleOf(cur), r, letPat(cur), r, ev.coq, r, cont(c)), "CPanic")
+}
+
+// closureArg: a function literal of type  func(T1,..,Tn) error  as a transformer of the captured state [cur]
+func (x *xlat) closureArg(fl *ast.FuncLit, want string, cur []*varInfo) string {
+	if got := goTypeStr(fl.Type); got != want {
+		unsup(fl, "function literal of type %s where %s is expected", got, want)
+	}
+	funcTypeParams(fl, want)
+	savedRes, savedRet := x.results, x.retWorld
+	x.results = []string{"error"}
+	x.retWorld = cur
+	if x.retWorld == nil {
+		x.retWorld = []*varInfo{}
+	}
+	var binders []string
+	for _, f := range fl.Type.Params.List {
+		if len(f.Names) == 0 {
+			unsup(fl, "unnamed parameter")
+		}
+		for _, id := range f.Names {
+			gt := x.qualifyRoot(typeStr(f.Type))
+			ct, ok := coqOf(gt)
+			if !ok || isPtr(gt) {
+				unsup(fl, "parameter type %s", gt)
+			}
+			if id.Obj != nil && x.mutable[id.Obj] {
+				unsup(fl, "function literal assigns its parameter %s", id.Name)
+			}
+			vi := x.declare(id, gt, false)
+			binders = append(binders, fmt.Sprintf("(%s : %s)", vi.coq, ct))
+		}
+	}
+	body := x.block(fl.Body.List, cur, nil, nil, false)
+	x.results, x.retWorld = savedRes, savedRet
+	return fmt.Sprintf("(fun %s %s => run_fn (%s))", strings.Join(binders, " "), patOf(cur), body)
+}
+
+// checkLinear: a local of a consumable handle type (linearTypes) must be used exactly once, and not inside a loop or a
+// function literal (where one syntactic use can be several reads)
+func (x *xlat) checkLinear(id *ast.Ident) {
+	if id.Obj == nil || x.curBody == nil {
+		unsup(id, "handle variable %s", id.Name)
+	}
+	uses := 0
+	var walk func(n ast.Node, nested bool)
+	walk = func(n ast.Node, nested bool) {
+		ast.Inspect(n, func(m ast.Node) bool {
+			switch t := m.(type) {
+			case *ast.ForStmt, *ast.RangeStmt, *ast.FuncLit:
+				if m != n {
+					walk(m, true)
+					return false
+				}
+			case *ast.Ident:
+				if t.Obj == id.Obj && t != id {
+					uses++
+					if nested {
+						unsup(t, "handle variable %s used inside a loop or function literal", id.Name)
+					}
+				}
+			}
+			return true
+		})
+	}
+	walk(x.curBody, false)
+	if uses != 1 {
+		unsup(id, "handle variable %s is used %d times (a reader is consumed by its use)", id.Name, uses)
+	}
 }
 
 // findIterate: if err := etreeutils.NSFindIterate(START, NS, TAG, H); err != nil { ...return } [else ...]
@@ -2871,7 +3263,11 @@ func (x *xlat) function(out *bytes.Buffer, name string) {
 			}
 		}()
 		x.analyse(fd.Body)
+		x.curBody = fd.Body
+		x.world, x.retWorld = nil, nil
 		var params []string
+		var assigned []*varInfo // scalar parameters the body assigns: mutable locals initialised by the argument
+		var ptypes []string
 		x.externs = map[string]bool{}
 		x.needParams = map[string]bool{}
 		x.recvCur = recvModel[name]
@@ -2888,24 +3284,40 @@ func (x *xlat) function(out *bytes.Buffer, name string) {
 		}
 		var cur0 []*varInfo
 		bindParam := func(id *ast.Ident, t ast.Expr) {
-			gt := x.qualifyRoot(typeStr(t))
+			gt := x.qualifyRoot(goTypeStr(t))
 			// an assigned parameter of scalar type is a mutable local initialised by the caller; an assigned receiver
 			// (sp.f = v) is threaded through the body and returned beside the results
-			assigned := false
+			isAssigned := false
 			recvMutated := false
 			if id.Obj != nil && x.mutable[id.Obj] {
 				switch {
-				case len(params) == 0 && recvModel[name] != "" && !x.reassign[id.Obj]:
+				case len(params) == 0 && fd.Recv != nil && recvModel[name] != "" && !x.reassign[id.Obj]:
 					recvMutated = true
 				case gt == "string" || gt == "int" || gt == "bool" || wraps64(gt):
-					assigned = true
+					isAssigned = true
 				default:
 					unsup(t, "parameter %s is assigned", id.Name)
 				}
 			}
+			ptypes = append(ptypes, gt)
 			var ct string
 			valPtr := false
 			switch {
+			case strings.HasPrefix(gt, "func("):
+				// a function value: a transformer of the abstract state W (see funcParamCall)
+				var cts []string
+				for _, pt := range funcTypeParams(t, gt) {
+					c, ok := coqOf(pt)
+					if !ok || isPtr(pt) {
+						unsup(t, "parameter type %s", gt)
+					}
+					cts = append(cts, c)
+				}
+				ct = strings.Join(append(cts, "W"), " -> ") + " -> pm (res unit * W)"
+				if x.world == nil {
+					x.world = &varInfo{coq: "w", typ: "fn.world"}
+					x.used["w"] = true
+				}
 			case len(params) == 0 && recvModel[name] != "":
 				ct, valPtr = recvModel[name], true
 			case nilableParams[gt] && typeBind(gt[1:]) != "":
@@ -2918,12 +3330,17 @@ func (x *xlat) function(out *bytes.Buffer, name string) {
 				ct = "Z"
 			case gt == "bool":
 				ct = "bool"
+			case gt == "[]byte":
+				ct = "string"
 			case mapBinds[gt].coq != "":
 				ct = mapBinds[gt].coq
 			default:
 				unsup(t, "parameter type %s", gt)
 			}
 			vi := x.declare(id, gt, valPtr)
+			if isAssigned {
+				assigned = append(assigned, vi)
+			}
 			params = append(params, fmt.Sprintf("(%s : %s)", vi.coq, ct))
 			if recvMutated {
 				x.recvMut = vi
@@ -2934,9 +3351,6 @@ func (x *xlat) function(out *bytes.Buffer, name string) {
 				}
 				x.used["v_edits"] = true
 				x.elMut = &elMutInfo{el: vi, edits: &varInfo{coq: "v_edits", typ: "tree.edits"}}
-			}
-			if assigned {
-				cur0 = append(cur0, vi)
 			}
 		}
 		if fd.Recv != nil {
@@ -3006,6 +3420,18 @@ func (x *xlat) function(out *bytes.Buffer, name string) {
 			cur0 = append(cur0, x.elMut.edits)
 			rt = "(node * " + rt + ")"
 		}
+		if x.world != nil {
+			// function-typed parameters: polymorphic in the state W they act on; the final state is returned beside the results
+			if x.bt != nil || fd.Recv != nil {
+				unsup(fd, "function-typed parameter of a method / builder")
+			}
+			cur0 = append(cur0, x.world)
+			x.retWorld = []*varInfo{x.world}
+			params = append(append([]string{"(W : Type)"}, params...), "(w : W)")
+			rt = "(" + rt + ") * W"
+		}
+		cur0 = append(cur0, assigned...)
+		x.curPtypes = ptypes
 		body := x.block(fd.Body.List, cur0, nil, nil, false)
 		if x.elMut != nil {
 			body = "let v_edits := edits_empty in " + body
@@ -3034,7 +3460,14 @@ func (x *xlat) function(out *bytes.Buffer, name string) {
 	out.WriteString(text)
 	if kind != "" && x.recvMut == nil && x.elMut == nil && !strings.HasPrefix(text, "(* UNSUPPORTED") {
 		x.done[name] = kind
+		if fd.Recv == nil && x.world != nil {
+			if x.fnParams == nil {
+				x.fnParams = map[string][]string{}
+			}
+			x.fnParams[name] = x.curPtypes
+		}
 	}
+	x.world, x.retWorld, x.curBody = nil, nil, nil
 }
 
 func emitFuncs(root, types *pkgFiles, env, tenv constEnv) []byte {
